@@ -67,6 +67,35 @@ def sentinel_summary(cfg):
     return loc
 
 
+def check_sentinel(rep, cfg):
+    """the other rules read `is_sentinel()` as false on field elements; that is justified only if the predicate compares the operand's raw
+    limbs with a constant whose raw (Montgomery) limbs are not below the modulus - a limb pattern no reduced element has"""
+    n = 0
+    for p in sorted(cfg.prog.bodies):
+        if not p.endswith("::is_sentinel"):
+            continue
+        m = re.search(r"fields::(fq|fr|fp)::u(64|32)::wrapper", p)
+        if not m:
+            continue
+        n += 1
+        f = m.group(1)
+        out, _ = run_deep(cfg, p, {})
+        S_ = mk("param", "self")
+        v = out.value
+        ok, why = False, Tm.show(v, maxdepth=6)
+        if v.op == "eq":
+            for a_, b_ in ((v.args[0], v.args[1]), (v.args[1], v.args[0])):
+                raws = [u for u in Tm.subterms(b_) if u.op == "felem_raw"]
+                if len(raws) == 1 and raws[0].args[0] == f and Tm.subst(b_, {raws[0]: S_}) is a_:
+                    val = raws[0].args[1]
+                    ok = isinstance(val, int) and val >= K.MODULI[f]
+                    why = "compares self's raw limbs with the constant %#x, which is %s the modulus" % (val, "not below" if ok else "BELOW")
+        rep.ob("SENTINEL/%s/%s" % (cfg.name, norm_path(p)), ok and not out.unmodelled,
+               "is_sentinel must be `raw limbs of self == raw limbs of a constant that is not a reduced residue` (every other rule reads it as false on field elements): %s" % why,
+               where=cfg.where(p))
+    return n
+
+
 def with_inverse_summary(cfg, loc):
     """cfg M: the divstep inversion (while loops over opaque fiat state) is summarised as the backend inverse when
     operators that use it (Div) are analysed; the routine itself is the subject of the INV rule"""
@@ -825,6 +854,7 @@ def run(rep, facts, tier):
             rep.floor("field_trait_methods_A", nft, 69)
         cfg.cache = {k: v for k, v in cfg.cache.items() if not (isinstance(k, tuple) and k[-1] == "deep+args")}
         check_inverse(rep, cfg, loc)
+        check_sentinel(rep, cfg)
         check_select(rep, cfg, loc)
         from . import groupops as _G
         _G.check_core_overrides(rep, cfg, ("field",), runner=lambda pth, cfg=cfg, loc=loc: run_deep(cfg, pth, loc)[0])
